@@ -78,9 +78,13 @@ fn roundtrip_one(c: &Cfg) -> RtOut {
 		},
 		Ok(Err((oracle, detail))) => {
 			let m = b11::minimise(c, oracle);
+			let dmin = match par::guarded(|| b11::check_roundtrip(&m)) {
+				Ok(Err((o, d))) if o == oracle => d,
+				_ => detail.clone(),
+			};
 			viols.push(Viol {
 				oracle,
-				identity: crate::rt_identity(oracle, "bolt11", &detail, &b11::cfg_desc(&m)),
+				identity: crate::rt_identity(oracle, "bolt11", &dmin, &b11::cfg_desc(&m)),
 				detail: format!("[{}] {}", b11::cfg_desc(c), detail),
 				replay: json!({"fam": "b11-rt", "cfg": b11::cfg_json(&m)}),
 				rank: 0,
@@ -112,8 +116,11 @@ pub fn run(cx: &mut Ctx) {
 	fams.push((
 		"product-fields",
 		product(&[
-			(5, all(5)),
-			(6, all(6)),
+			// the values with known lossy / unparseable encodings (htlc min/max in a hint, segwit
+			// programs of 1 or 41 bytes) stay in the one-factor and pair families so that they do not
+			// end the checks of a whole product slice early
+			(5, (0..30).collect()),
+			(6, vec![0, 1, 2, 3, 4, 5, 6, 8, 9]),
 			(7, all(7)),
 			(8, if thorough { all(8) } else { vec![0] }),
 			(9, all(9)),
